@@ -1215,13 +1215,23 @@ static int32
 DFR8Iopen(const char *filename, int acc_mode)
 {
     int32 file_id;
+    int   same_file; /* use reopen if same file as last time - more efficient */
     int32 ret_value = SUCCEED;
 
-    /* use reopen if same file as last time - more efficient */
-    if (strncmp(Lastfile, filename, DF_MAXFNLEN) || (acc_mode == DFACC_CREATE)) {
-        /* treat create as different file */
-        if ((file_id = Hopen(filename, acc_mode, 0)) == FAIL)
-            HGOTO_ERROR(DFE_BADOPEN, FAIL);
+    /* treat create as different file */
+    same_file = (strncmp(Lastfile, filename, DF_MAXFNLEN) == 0) && (acc_mode != DFACC_CREATE);
+
+    if ((file_id = Hopen(filename, acc_mode, 0)) == FAIL)
+        HGOTO_ERROR(DFE_BADOPEN, FAIL);
+
+    /* the file may have been replaced under the same name since it was used last:
+       what is remembered as already written to it must still be in it */
+    if (same_file &&
+        ((Writerig.descimage.nt.ref && Hexist(file_id, Writerig.descimage.nt.tag, Writerig.descimage.nt.ref) == FAIL) ||
+         (Writerig.lut.ref && Hexist(file_id, Writerig.lut.tag, Writerig.lut.ref) == FAIL)))
+        same_file = FALSE;
+
+    if (!same_file) {
         foundRig = -1; /* don't know if any RIGs in file */
         Refset   = 0;  /* no ref to get set for this file */
         Newdata  = 0;
@@ -1231,10 +1241,6 @@ DFR8Iopen(const char *filename, int acc_mode)
         if (Newpalette != (-1))
             Newpalette = 1; /* need to write out palette */
     }                       /* end if */
-    else {
-        if ((file_id = Hopen(filename, acc_mode, 0)) == FAIL)
-            HGOTO_ERROR(DFE_BADOPEN, FAIL);
-    }
 
     /* remember filename, so reopen may be used next time if same file */
     strncpy(Lastfile, filename, DF_MAXFNLEN);
